@@ -38,6 +38,7 @@ func main() {
 		c.Family("cfindex", c.N(84, 4000), famCfIndex)
 		c.Require("cfindex.blocks_checked", 2000)
 		c.Require("cfindex.reorgs", 20)
+		c.Require("cfindex.catch-ups", 20)
 
 		c.Require("calibrate.siphash", 64)
 		c.Require("calibrate.bip158", 2)
